@@ -682,6 +682,18 @@ func runC04Generated(t *testing.T, registry map[int]lexer.Definition, dataFile s
 					}
 				}
 			}
+			if len(errs) == 0 {
+				// ... and through the reader entry point
+				if l, err := gen.Lex("f", strings.NewReader(in)); err == nil {
+					if toks, err := lexer.ConsumeAll(l); err == nil {
+						r.Count("reader_entry_point")
+						errs = lexgen.ValidateTokens(in, "f", toks, !d.RS.HasLowerCase())
+						for i := range errs {
+							errs[i] = "Lex(reader): " + errs[i]
+						}
+					}
+				}
+			}
 			if len(errs) > 0 {
 				failed = true
 				c := map[string]any{"kind": "generated", "rules": d.RS, "input_hex": inHex, "filename": "f", "entry": "string", "rules_text": d.RS.String()}
